@@ -23,7 +23,7 @@ import (
 var (
 	namespaces = []string{"ns1", "ns2", "ns3"}
 	rootNS     = "istio-system"
-	hostPool   = []string{"a.example.com", "b.example.com", "c.example.com", "d.corp.example.com", "e.ns1.svc.cluster.local"}
+	hostPool   = []string{"a.example.com", "b.example.com", "c.example.com", "a.example.com", "b.example.com", "e.ns1.svc.cluster.local"}
 	kinds      = []config.GroupVersionKind{
 		gvk.ServiceEntry, gvk.ServiceEntry, gvk.ServiceEntry, gvk.WorkloadEntry, gvk.VirtualService, gvk.VirtualService, gvk.DestinationRule, gvk.DestinationRule,
 		gvk.Sidecar, gvk.Gateway, gvk.PeerAuthentication, gvk.RequestAuthentication, gvk.AuthorizationPolicy, gvk.EnvoyFilter, gvk.Telemetry, gvk.WasmPlugin,
@@ -37,7 +37,7 @@ var (
 func pick[T any](r *rand.Rand, xs []T) T { return xs[r.Intn(len(xs))] }
 
 func exportTo(r *rand.Rand) []string {
-	switch r.Intn(8) {
+	switch r.Intn(12) {
 	case 0:
 		return []string{"."}
 	case 1:
@@ -153,7 +153,7 @@ func genSpec(r *rand.Rand, k config.GroupVersionKind, ns string) config.Spec {
 			dr.Host = "*.example.com"
 		}
 		for _, v := range []string{"v1", "v2"} {
-			if r.Intn(2) == 0 {
+			if r.Intn(3) != 0 {
 				// the same subset name may select different endpoints after an update
 				lv := v
 				if r.Intn(3) == 0 {
@@ -306,7 +306,10 @@ type op struct {
 	NS   string
 	Name string
 	Spec config.Spec `json:"-"`
-	TS   int64       // creation timestamp (unix seconds), fixed per object incarnation
+	// TS is the creation timestamp (unix seconds), fixed per object incarnation and unique within a history:
+	// which of several equally old objects wins a conflict is property C17's subject (tie-rich worlds are
+	// generated by the determ engine), and arrival order must not leak into this comparison through ties.
+	TS int64
 }
 
 func (o op) String() string {
@@ -365,7 +368,7 @@ func genHistory(r *rand.Rand, n int) [][]op {
 			if prev, exists := live[key]; exists {
 				o = op{Verb: "update", Kind: k, NS: ns, Name: name, Spec: genSpec(r, k, ns), TS: prev.TS}
 			} else {
-				o = op{Verb: "create", Kind: k, NS: ns, Name: name, Spec: genSpec(r, k, ns), TS: 1700000000 + int64(r.Intn(5))}
+				o = op{Verb: "create", Kind: k, NS: ns, Name: name, Spec: genSpec(r, k, ns), TS: 1700000000 + int64(i)}
 				isNew = true
 			}
 		case "update", "noop-update":
